@@ -116,6 +116,15 @@ func runCase(c Case) (res vt.Result, fail *vt.Fail) {
 		reg.PadJSON = c.MaxMeta + c.PadDelta
 	}
 	rp := reg.Repo(repoName)
+	// a listing that keeps asking for pages is cut off (and then judged as failed)
+	nreq := 0
+	reg.Pre = func(req *http.Request, rec *regmodel.ReqRecord) (*http.Response, error) {
+		nreq++
+		if nreq > 200 {
+			return nil, fmt.Errorf("verif: more than 200 page requests for %d items: the listing does not terminate", c.Items)
+		}
+		return nil, nil
+	}
 	client := &http.Client{Transport: reg}
 	var expected []string
 	var got []string
